@@ -306,6 +306,46 @@ def gpSectionOk (gp : Option GpInfo) (alloc noload : List Str) : Bool :=
   | some g => g.sect ∈ alloc || g.sect ∈ noload
   | none => true
 
+/-- the last part of `SegmentSerial::unserialize`: conditions, the overridable options and the
+checks that need them (`gp_info.section`, cyclic sub-groups). -/
+def segmentTail (st : Settings) (s : SegmentS) (fv : Option Nat) (fs fol vc : Option Str) (dir : Str)
+    (gp : Option GpInfo) : D Segment :=
+  match s.cond.unserialize with
+  | .error e => .error e
+  | .ok cond =>
+    match s.over.allocSections.nonNull st.allocSections,
+          s.over.noloadSections.nonNull st.noloadSections with
+    | .ok alloc, .ok noload =>
+      if !gpSectionOk gp alloc noload then .error .missingSectionForSegment
+      else
+        match s.over.sectionsStartAlignment.nonNull st.sectionsStartAlignment,
+              s.over.sectionsEndAlignment.nonNull st.sectionsEndAlignment,
+              s.over.wildcardSections.nonNull st.wildcardSections,
+              s.over.sectionsSubgroups.nonNull st.sectionsSubgroups with
+        | .ok ssa, .ok sea, .ok wc, .ok sub =>
+          if hasSubgroupCycle sub then .error .cyclicSubgroups
+          else
+            .ok { name := s.name,
+                  files := [],
+                  fixedVram := fv, fixedSymbol := fs, followsSegment := fol, vramClass := vc,
+                  dir := dir, gpInfo := gp, cond := cond,
+                  allocSections := alloc, noloadSections := noload,
+                  subalign := s.over.subalign.optionalNullable st.subalign,
+                  segmentStartAlign := s.over.segmentStartAlign.optionalNullable st.segmentStartAlign,
+                  segmentEndAlign := s.over.segmentEndAlign.optionalNullable st.segmentEndAlign,
+                  sectionStartAlign := s.over.sectionStartAlign.optionalNullable st.sectionStartAlign,
+                  sectionEndAlign := s.over.sectionEndAlign.optionalNullable st.sectionEndAlign,
+                  sectionsStartAlignment := ssa, sectionsEndAlignment := sea,
+                  wildcardSections := wc,
+                  fillValue := s.over.fillValue.optionalNullable st.fillValue,
+                  sectionsSubgroups := sub, keep := s.keep }
+        | .error e, _, _, _ => .error e
+        | _, .error e, _, _ => .error e
+        | _, _, .error e, _ => .error e
+        | _, _, _, .error e => .error e
+    | .error e, _ => .error e
+    | _, .error e => .error e
+
 /-- everything `SegmentSerial::unserialize` does after its files are unserialised (the result
 carries no files yet). -/
 def segmentRest (st : Settings) (s : SegmentS) : D Segment :=
@@ -321,42 +361,7 @@ def segmentRest (st : Settings) (s : SegmentS) : D Segment :=
         | .error e => .error e
         | .ok gp =>
           if gp.isSome && st.hardcodedGpValue.isSome then .error .invalidFieldCombo
-          else
-            match s.cond.unserialize with
-            | .error e => .error e
-            | .ok cond =>
-              match s.over.allocSections.nonNull st.allocSections,
-                    s.over.noloadSections.nonNull st.noloadSections with
-              | .ok alloc, .ok noload =>
-                if !gpSectionOk gp alloc noload then .error .missingSectionForSegment
-                else
-                  match s.over.sectionsStartAlignment.nonNull st.sectionsStartAlignment,
-                        s.over.sectionsEndAlignment.nonNull st.sectionsEndAlignment,
-                        s.over.wildcardSections.nonNull st.wildcardSections,
-                        s.over.sectionsSubgroups.nonNull st.sectionsSubgroups with
-                  | .ok ssa, .ok sea, .ok wc, .ok sub =>
-                    if hasSubgroupCycle sub then .error .cyclicSubgroups
-                    else
-                      .ok { name := s.name,
-                            files := [],
-                            fixedVram := fv, fixedSymbol := fs, followsSegment := fol, vramClass := vc,
-                            dir := dir, gpInfo := gp, cond := cond,
-                            allocSections := alloc, noloadSections := noload,
-                            subalign := s.over.subalign.optionalNullable st.subalign,
-                            segmentStartAlign := s.over.segmentStartAlign.optionalNullable st.segmentStartAlign,
-                            segmentEndAlign := s.over.segmentEndAlign.optionalNullable st.segmentEndAlign,
-                            sectionStartAlign := s.over.sectionStartAlign.optionalNullable st.sectionStartAlign,
-                            sectionEndAlign := s.over.sectionEndAlign.optionalNullable st.sectionEndAlign,
-                            sectionsStartAlignment := ssa, sectionsEndAlignment := sea,
-                            wildcardSections := wc,
-                            fillValue := s.over.fillValue.optionalNullable st.fillValue,
-                            sectionsSubgroups := sub, keep := s.keep }
-                  | .error e, _, _, _ => .error e
-                  | _, .error e, _, _ => .error e
-                  | _, _, .error e, _ => .error e
-                  | _, _, _, .error e => .error e
-              | .error e, _ => .error e
-              | _, .error e => .error e
+          else segmentTail st s fv fs fol vc dir gp
   | .error e, _, _, _ => .error e
   | _, .error e, _, _ => .error e
   | _, _, .error e, _ => .error e
